@@ -83,8 +83,12 @@ def make_cases(ctx, n_graph, n_leg, n_linalg, zoo_seeds, zoo_all):
             rest.append({'kind': 'leg', 'seed': s, 'fmt': fmt})
     for n in range(n_linalg):
         rng = ctx.sub_rng('linalg:%d' % n)
-        rest.append({'kind': 'linalg', 'seed': rng.randrange(2 ** 31), 'what': rng.choice(['chinfo', 'pipe', 'array', 'array']),
-                     'fmt': rng.choice(K.FORMATS + ('blocks',))})
+        c = {'kind': 'linalg', 'seed': rng.randrange(2 ** 31), 'what': rng.choice(['chinfo', 'pipe', 'array', 'array']),
+             'fmt': rng.choice(K.FORMATS + ('blocks',))}
+        if c['what'] == 'pipe':
+            # pipes as constructed, and pipes derived from them (these keep the block order of their origin)
+            c['derived'] = rng.choice([None, None, None, 'conj', 'outer_conj', 'outer_conj', 'outer_conj2', 'mapped'])
+        rest.append(c)
     return first, rest
 
 
